@@ -19,7 +19,7 @@ import (
 
 var noReplay bool
 
-var allPkgs = []string{"./message", "./sessions", "./service", "./topics"}
+var allPkgs = []string{"./message", "./sessions", "./service", "./topics", "./auth"}
 
 func main() {
 	if len(os.Args) < 2 {
@@ -94,6 +94,9 @@ func cmdCheck(args []string) int {
 			sort.Strings(names)
 			for _, n := range names {
 				fn := eng.funcs[n]
+				if !strings.Contains(n, "github.com/mdzio/go-mqtt/") {
+					continue // only functions of the repository itself
+				}
 				if want[n] || !callsAny(fn, want) {
 					continue
 				}
@@ -159,8 +162,16 @@ func cmdCheck(args []string) int {
 			under = append(under, sn)
 			continue
 		}
-		t := translateFunc(eng, fn, ct)
+		var t *fnTrans
+		if ct.Flags["arith"] == "bv64" {
+			t = translateBV(eng, fn, ct)
+		} else {
+			t = translateFunc(eng, fn, ct)
+		}
 		fv := &funcVC{Name: eng.shortName(name), Items: t.items, Errs: t.errs, RetReach: t.retBlocks, RetPos: t.retPos, tr: t}
+		if ct.Flags["arith"] == "bv64" {
+			fv.tr, fv.bvFn = nil, name
+		}
 		if len(t.errs) > 0 {
 			// The contract no longer binds to the code (new loop without invariant, renamed loop variable,
 			// call without contract, construct outside the subset): the obligations of this function that
@@ -266,6 +277,10 @@ func callsAny(fn *ssa.Function, want map[string]bool) bool {
 			}
 			if cc != nil {
 				if f := cc.StaticCallee(); f != nil && want[f.String()] {
+					return true
+				}
+				if cc.IsInvoke() && want[ifaceMethodName(cc.Value.Type(), cc.Method)] {
+					// a guarded interface method (e.g. net.Conn.SetReadDeadline)
 					return true
 				}
 			}
@@ -504,6 +519,14 @@ func trustedBase(eng *Engine) []string {
 	}
 	sort.Strings(ext)
 	for _, n := range ext {
+		if c := eng.cs.ByTarget[n]; c.Kind == "iface" && c.Flags["refined"] != "" {
+			var ws []string
+			for _, w := range strings.Fields(c.Flags["refined"]) {
+				ws = append(ws, eng.shortName(w))
+			}
+			out = append(out, "interface contract "+n+": assumed at dynamic calls; proved to follow from the contract of each listed implementation (refinement wrappers verified in every closure that uses it: "+strings.Join(ws, ", ")+"); implementations outside this list are not covered")
+			continue
+		}
 		out = append(out, "trusted contract (assumed, not proved): "+n)
 	}
 	var more []string
